@@ -50,6 +50,16 @@ CHECKS = {
         note="netlister acceptance demanded only of packages without uncompiled physical primitives; quick tier takes a fixed arithmetic sub-sequence of the two largest families (reported as a cap)",
         tech="invariant checked on every state of a bounded-exhaustive exploration of design programs executed on the implementation",
         ref="DESIGN.md 2/C06"),
+    "C07": dict(
+        text="for two design DAGs with shared sub-modules (bundle ports, port references, no-connects, arrays, pairs): every sequence of up to 2 calls (3 thorough, reduced alphabet) out of elaborate / to_proto / netlist of every module and elaborate / to_proto of every ordered pair is run on fresh objects, after which the package of every module must be byte-identical to that of a fresh build, exporting again must change nothing, a new parent must see the elaborated module's bundle-level ports, and additions must be refused; a subset is re-run in fresh sub-processes",
+        note="stateless enumeration: no state merging, since cache contents are the thing under test",
+        tech="exhaustive enumeration of call histories up to a depth bound on the real objects, differential oracle against a history-free build",
+        ref="DESIGN.md 2/C07"),
+    "C08": dict(
+        text="fault points enumerated exhaustively: an injected failing pass at every (pass position x module) of two design DAGs through the public custom pass list; every library-rejected single-fault mutant of the DAG designs (so each checking / rewriting pass and the exporter fails somewhere); generator bodies raising (plain, nested, shared); each followed by every continuation: retry unchanged, retry with the fault removed, repair and retry, unrelated design, export of every healthy module, retry again",
+        note="'original error again' = the informative tail of the first message re-appears and no circular-dependency error appears that the first attempt did not report; quick tier: every 2nd real mutant, to_proto entry only (cap reported)",
+        tech="exhaustive fault-point x continuation enumeration on the implementation (fault injection through public extension points and planted design faults), differential oracle against fresh builds",
+        ref="DESIGN.md 2/C08"),
     "C09": dict(
         text="for eight parameter-class shapes, all ordered pairs of an adversarial value set x three call forms (keywords, instance, handed on through a second generator) are executed on the real generator machinery in a fresh cache: identity, body-run counts, package names and netlist sub-circuit names are compared; all permutations of up to four calls are replayed for name stability; three fresh processes with different hash seeds must agree",
         note="parameter-class equality decides which calls must share a Module; two same-named Modules as parameter values and unhashable dict-parameter calls are excluded as grey",
